@@ -841,6 +841,68 @@ func stringAccessorRule(c *Ctx, r *Report) {
 			}
 			r.Check(fromParser, "R03e", name, "returns the parsed value", c.Pos(ret.Pos()), "the success value is strconv's result", "a success return does not return the parser's result")
 		}
+		// toInt / toUint: the exact integer parser decides. An answer that comes from somewhere else after that parser
+		// failed (the text read as a float and converted) replaces its *range* error by a rounded number: the text
+		// "-9223372036854775809" becomes MinInt64. Such an answer is acceptable only where the failure was tested to be
+		// a syntax error (errors.Is / a comparison with strconv.ErrSyntax or ErrRange in front of it).
+		if mname == "toInt" || mname == "toUint" {
+			for _, ret := range Returns(fn) {
+				if len(ret.Results) != 2 {
+					continue
+				}
+				foreign := ""
+				for _, src := range Sources(RetVal(ret, 0)) {
+					switch x := src.(type) {
+					case *ssa.Const:
+					case *ssa.Extract:
+						call, _ := x.Tuple.(*ssa.Call)
+						if call == nil {
+							foreign = x.String()
+							break
+						}
+						if g := call.Call.StaticCallee(); g == nil || g.Pkg == nil || g.Pkg.Pkg.Path() != "strconv" || (g.Name() != "ParseInt" && g.Name() != "ParseUint") {
+							foreign = "result of " + call.Call.String()
+						}
+					default:
+						foreign = describeVals([]ssa.Value{src})
+					}
+				}
+				if foreign == "" {
+					continue
+				}
+				kindTested := false
+				for _, cd := range DomConds(ret.Block()) {
+					for _, part := range ExpandConds([]Cond{cd}) {
+						for _, src := range append([]ssa.Value{part.V}, Sources(part.V)...) {
+							switch y := src.(type) {
+							case *ssa.Call:
+								for _, a := range y.Call.Args {
+									for _, as := range append([]ssa.Value{a}, Sources(a)...) {
+										if l, ok := as.(*ssa.UnOp); ok {
+											if g, ok := l.X.(*ssa.Global); ok && (g.Name() == "ErrSyntax" || g.Name() == "ErrRange") {
+												kindTested = true
+											}
+										}
+									}
+								}
+							case *ssa.BinOp:
+								for _, a := range []ssa.Value{y.X, y.Y} {
+									for _, as := range append([]ssa.Value{a}, Sources(a)...) {
+										if l, ok := as.(*ssa.UnOp); ok {
+											if g, ok := l.X.(*ssa.Global); ok && (g.Name() == "ErrSyntax" || g.Name() == "ErrRange") {
+												kindTested = true
+											}
+										}
+									}
+								}
+							}
+						}
+					}
+				}
+				r.Check(kindTested, "R03e", name, "no second opinion on a range error", c.Pos(ret.Pos()), "the other answer is given only where the integer parser's failure was tested to be a syntax error",
+					"a return of "+mname+" answers with "+foreign+" after strconv's exact integer parse failed, without telling a syntax error from a range error: an integer text just outside the 64-bit range is rounded by the other reader and stored as a different number (\"-9223372036854775809\" reads as MinInt64)")
+			}
+		}
 	}
 }
 
